@@ -1595,8 +1595,6 @@ class MindsDBParser(Parser):
        'expr NEQUALS expr',
        'expr GEQ expr',
        'expr GREATER expr',
-       'expr GEQ LAST',
-       'expr GREATER LAST',
        'expr LEQ expr',
        'expr LESS expr',
        'expr AND expr',
@@ -1612,10 +1610,17 @@ class MindsDBParser(Parser):
        'expr NOT_IN expr',
        'expr IN expr',)
     def expr(self, p):
-        if hasattr(p, 'LAST'):
+        arg1 = p[2]
+        if (
+                p[1] in ('>', '>=')
+                and isinstance(arg1, Identifier)
+                and len(arg1.parts) == 1
+                and isinstance(arg1.parts[0], str)
+                and arg1.parts[0].lower() == 'last'
+                and not arg1.parentheses
+        ):
+            # `x > last`: the whole right operand is the word LAST (in `x > last + 1` it is a name inside an expression)
             arg1 = Last()
-        else:
-            arg1 = p[2]
         return binary_operation(p[1], p[0], arg1)
 
     @_('MINUS expr %prec UMINUS',
